@@ -64,6 +64,7 @@ type Job struct {
 	Raw     bool // run without redirects/summaries (lemmas about the real bodies)
 	NoMerge bool
 	RealHash bool // the table harness runs with the real hash function instead of the uninterpreted summary
+	Redirect map[string]string // extra redirects of this job: callee -> harness function of the job's package
 	Yield   bool // releases of a mutex call the harness hook that may run the other goroutine's operation (C14)
 }
 
@@ -241,6 +242,12 @@ func runCheck(spec *Spec, tier string, seed int64) int {
 				j.Args = append(j.Args, v)
 			}
 		}
+		// inherit the flags (Raw, Yield, RealHash, Redirect, ...) of the registered job of that name
+		for _, rj := range jobs {
+			if rj.Name() == j.Name() {
+				j = rj
+			}
+		}
 		jobs = []Job{j}
 	}
 	if only := os.Getenv("GOSYM_ONLY"); only != "" {
@@ -396,6 +403,13 @@ func (rc *RunCtx) runJob(j Job) (res *JobResult) {
 	pkg := rc.Loaded.Pkgs[pkgDirs[j.Pkg][1]]
 	if pkg == nil {
 		panic("package not loaded: " + j.Pkg)
+	}
+	for callee, target := range j.Redirect {
+		f := pkg.Func(target)
+		if f == nil {
+			panic("redirect target not found: " + target)
+		}
+		e.Redirects[callee] = f
 	}
 	if j.RealHash {
 		delete(e.Redirects, qHashBetween)
